@@ -226,6 +226,8 @@ pub struct WorldSat<'a> {
     pub sign: &'a SignCtx,
     /// produce 65-byte schnorr signatures with explicit SIGHASH_ALL
     pub schnorr_all: bool,
+    /// claim every time lock is met (used only to fabricate adversarial interpreter inputs)
+    pub lie_locks: bool,
 }
 
 impl<'a> WorldSat<'a> {
@@ -345,11 +347,11 @@ impl<'a, Pk: MiniscriptKey + ToPublicKey> Satisfier<Pk> for WorldSat<'a> {
     }
 
     fn check_older(&self, lt: relative::LockTime) -> bool {
-        self.chk().check_sequence(lt.to_consensus_u32() as i64)
+        self.lie_locks || self.chk().check_sequence(lt.to_consensus_u32() as i64)
     }
 
     fn check_after(&self, lt: absolute::LockTime) -> bool {
-        self.chk().check_locktime(lt.to_consensus_u32() as i64)
+        self.lie_locks || self.chk().check_locktime(lt.to_consensus_u32() as i64)
     }
 }
 
